@@ -391,6 +391,6 @@ pub fn property() -> Property {
         rule: "pairs of simple directed/undirected graphs (optional self-loops, n0 <= n1 <= 6 quick) with node weights from a 1-3 letter and edge weights from a 2 letter alphabet: independent pairs, relabeled induced subgraphs (positive), one-pair toggles and one-weight changes of those (near misses), degree-preserving 2-switches; predicates always-true / equality / asymmetric <=; every answer compared with exhaustive enumeration of injective maps, the iterator's output compared as a set with duplicate detection, and everything repeated after relabeling both arguments; non-trivial = both graphs >= 3 nodes and the answer not decided by the node/edge-count pre-checks; distinct by case fingerprint",
         assumptions: &["graphs are simple (the documented domain); the iterator is read with take(expected+3) so that a non-terminating iterator shows up as duplicates, not as a hang"],
         both_profiles: false,
-        subs: vec![sub("vf2/pairs", 120_000, 3_000_000, strategy, run)],
+        subs: vec![sub("vf2/pairs", 2_400_000, 40_000_000, strategy, run)],
     }
 }
